@@ -1,4 +1,145 @@
+"""C06, free-running tier: real threads hammer one container with no harness synchronisation
+inside the run; every call logs the sequence number drawn while the container lock is held
+(after_lock hook).  Ordered by that number the log is a sequential history, validated by
+spec/SeqTrace.tla; a full projection is taken at each quiescent point."""
+import json
+import os
+import shutil
+import subprocess
+from concurrent.futures import ThreadPoolExecutor
+
+import vlib
+from vlib import KINDS, NPROC, build, cfg_line, judge_batch, log, sh
+
+FREE_TAGS = ["C01", "C03", "C09", "C18", "SPEC", "C06"]
+
+
+def block(kind, seed, threads, calls, rounds):
+    cap = 0 if kind in ("utmap", "utset") else 4
+    cfg = dict(kind=kind, cap=cap, ts=1, mlf=100, ttl=100000, tick=2, rnum=1, rsh=1, fl=seed % 2, keys=4)
+    return [cfg_line(cfg), "pre ins 1 5 3 100000", "threads %d" % threads, "calls %d" % calls, "seed %d" % seed,
+            "record 1", "keys 4", "rounds %d" % rounds, "end"]
+
+
+def to_trace(log_lines):
+    """conc free log (one cfg ... endcase block) -> SeqTrace lines"""
+    out = []
+    keys = 4
+    for ln in log_lines:
+        e = json.loads(ln)
+        if e["e"] == "cfg":
+            keys = e["keys"]
+            out.append(ln)
+        elif e["e"] == "op":
+            out.append(ln)
+        elif e["e"] == "call":
+            out.append(json.dumps(dict(e="op", op=e["op"], k=e["k"], v=e["v"], a=e["a"], d=e["d"], p=e["p"], var=e["var"],
+                                       kv=e["kv"], now=e["now"], ret=e["ret"], rc=e["rc"], rl=e["rl"], size=-1, empty=0,
+                                       cap=0, obs=[], skip=list(range(1, keys + 1))), separators=(",", ":")))
+    return out
+
+
+def run_blocks(blocks, wd, name):
+    binp = build("plain", "conc")
+    os.makedirs(wd, exist_ok=True)
+    pp = os.path.join(wd, name + ".prog")
+    tp = os.path.join(wd, name + ".log")
+    with open(pp, "w") as f:
+        for b in blocks:
+            f.write("\n".join(b) + "\n")
+    try:
+        r = sh([binp, "free", pp, tp], timeout=600)
+    except subprocess.TimeoutExpired:
+        return None, "free run timed out"
+    if r.returncode != 0:
+        return None, "conc free failed rc=%s %s" % (r.returncode, r.stdout[-800:])
+    with open(tp) as f:
+        lines = [x.rstrip("\n") for x in f if x.strip()]
+    cases = []
+    cur = None
+    for ln in lines:
+        if ln.startswith('{"e":"cfg"'):
+            cur = []
+            cases.append(cur)
+        if ln.startswith('{"e":"endcase"'):
+            cur = None
+            continue
+        if cur is not None:
+            cur.append(ln)
+    return [to_trace(c) for c in cases], None
+
+
 def run(tier, wd, rng):
-    return dict(accepted=0, events=0, summary=None, violations=[])
+    from runner import write_replay
+    nblocks = 60 if tier == "quick" else 1200
+    blocks = []
+    for i in range(nblocks):
+        kind = KINDS[i % len(KINDS)]
+        blocks.append(block(kind, rng.randint(1, 10 ** 6), rng.choice([2, 3, 4]), rng.choice([40, 80]), 3))
+    chunks = [blocks[i::NPROC] for i in range(NPROC) if blocks[i::NPROC]]
+    res = dict(accepted=0, events=0, violations=[], summary=None)
+    calls = 0
+
+    def work(ci):
+        traces, err = run_blocks(chunks[ci], wd, "f%d" % ci)
+        if err:
+            return dict(infra=err)
+        flat = [ln for t in traces for ln in t]
+        acc, rej, ev, infra = judge_batch(flat, FREE_TAGS, wd, "f%d" % ci)
+        return dict(acc=acc, rej=[(chunks[ci][r["exec_index"]], r) for r in rej], ev=ev, infra=infra)
+
+    with ThreadPoolExecutor(max_workers=NPROC) as ex:
+        for r in ex.map(work, range(len(chunks))):
+            if r.get("infra"):
+                res["infra"] = r["infra"]
+                continue
+            res["accepted"] += r["acc"]
+            res["events"] += r["ev"]
+            for blk, rj in r["rej"]:
+                # a free run is not reproducible by construction: re-run the block a few times
+                again = 0
+                for _ in range(3):
+                    traces, err = run_blocks([blk], os.path.join(wd, "again"), "a")
+                    if err:
+                        continue
+                    _, rej2, _, _ = judge_batch(traces[0], FREE_TAGS, os.path.join(wd, "again"), "a")
+                    if rej2:
+                        again += 1
+                if again == 0:
+                    log("free-running rejection did not repeat in 3 re-runs; not reported")
+                    continue
+                i = rj["line_in_exec"]
+                log("free-running log not explained by any sequential order at line %d:\n%s" %
+                    (i, "\n".join(x[:260] for x in rj["trace"][max(0, i - 3):i])))
+                res["violations"].append(write_replay("C06", blk, FREE_TAGS, "free"))
+    res["summary"] = dict(blocks=len(blocks), logs_accepted=res["accepted"], events=res["events"],
+                          threads="2-4", calls_per_thread="40-80 x 3 rounds")
+    return res
+
+
 def replay(meta, script, path):
-    return 2
+    wd = os.path.join(vlib.OUT, "replay_%d" % os.getpid())
+    bad = 0
+    for i in range(5):
+        traces, err = run_blocks([script], wd, "r")
+        if err:
+            print("replay: infrastructure failure: " + err)
+            return 2
+        _, rej, _, infra = judge_batch(traces[0], FREE_TAGS, wd, "r")
+        if infra:
+            print("replay: infrastructure failure: " + infra[-800:])
+            return 2
+        if rej:
+            bad += 1
+            r = rej[0]
+            i = r["line_in_exec"]
+            print("replay: run %d: no sequential order explains the log at line %d" % (i, r["line_in_exec"]))
+            for ln in r["trace"][max(0, i - 3):i]:
+                print("   " + ln[:300])
+            break
+    shutil.rmtree(wd, ignore_errors=True)
+    if bad:
+        print("VIOLATION property=C06 replay=%s" % path)
+        return 1
+    print("replay: 5 free runs accepted")
+    return 0
